@@ -138,7 +138,8 @@ type Sim struct {
 	probes      [16]probeEnt
 	nprobes     int
 	PanicHook   func(v any, stack string)
-	Faults      [32]int // per fault kind fired counters (indexed by harness-defined constants)
+	fence       []uint32 // race builds only: per-goroutine (by creation sequence) release slots, see Fence()
+	Faults      [32]int  // per fault kind fired counters (indexed by harness-defined constants)
 }
 
 type probeEnt struct {
@@ -173,6 +174,9 @@ func New(cfg Config) *Sim {
 	s.tape = make([]Draw, cfg.MaxTape)
 	if cfg.Trace {
 		s.Log = make([]string, cfg.MaxSteps+16)
+	}
+	if RaceEnabled {
+		s.fence = make([]uint32, 1<<17)
 	}
 	s.rs = cfg.Seed*0x9E3779B97F4A7C15 + 0x1234567
 	if s.rs == 0 {
@@ -472,6 +476,12 @@ func wrap(s *Sim, id int, f func()) {
 				stack = string(debug.Stack())
 			}
 		}
+		if RaceEnabled {
+			raceDisable()
+			seq := s.seqOf(id)
+			raceEnable()
+			s.fenceRelease(seq)
+		}
 		raceDisable()
 		s.finish(id)
 		raceEnable()
@@ -605,6 +615,31 @@ func (s *Sim) callerSite(skip int) string {
 
 func hasPrefix(s, p string) bool { return len(s) >= len(p) && s[:len(p)] == p }
 
+// fenceRelease publishes (with a real, race-detector-visible store-release) everything the calling goroutine has
+// done so far to its own fence slot. Only the harness's Fence() ever acquires these slots, so no happens-before
+// edge between two goroutines of the system under test is created.
+func (s *Sim) fenceRelease(seq uint64) {
+	if RaceEnabled && seq < uint64(len(s.fence)) {
+		atomic.StoreUint32(&s.fence[seq], 1)
+	}
+}
+
+//go:norace
+func (s *Sim) seqOf(id int) uint64 { return s.gs[id].seq }
+
+// Fence orders the calling (harness) goroutine after everything every other registered goroutine did before its
+// most recent scheduling point: call it at quiescence before reading state of the system under test directly
+// (accessors). In non-race builds it does nothing.
+func Fence() {
+	s := Active()
+	if s == nil || !RaceEnabled {
+		return
+	}
+	for i := range s.fence {
+		atomic.LoadUint32(&s.fence[i])
+	}
+}
+
 // Yield is a scheduling point.
 func Yield() {
 	s := Active()
@@ -616,6 +651,12 @@ func Yield() {
 	if id < 0 {
 		raceEnable()
 		return
+	}
+	if RaceEnabled {
+		seq := s.seqOf(id)
+		raceEnable()
+		s.fenceRelease(seq)
+		raceDisable()
 	}
 	s.noteSite(id)
 	s.park(id, stParked, nil)
